@@ -3,7 +3,10 @@ package generator
 
 import (
 	"errors"
+	"sort"
 	"strconv"
+	"strings"
+	"sync"
 
 	"github.com/cloudwego/thriftgo/generator/backend"
 
@@ -44,13 +47,20 @@ func H_C19_extract(J, withPP, K int) {
 
 func D_C19_1() string {
 	calls := ""
+	var mu sync.Mutex
+	var got []string
 	p := &asyncPostProcess{concurrency: 1}
 	p.Add("a", "1")
 	p.Add("b", "2")
 	err := p.OnFinished(func(path string, content []byte) error {
-		calls += path + string(content) + ";"
+		mu.Lock()
+		got = append(got, path+string(content)+";")
+		mu.Unlock()
 		return nil
 	})
+	// the set of writes, not their order (which a schedule may choose), is compared
+	sort.Strings(got)
+	calls = strings.Join(got, "")
 	if err != nil {
 		calls += "ERR"
 	}
